@@ -3,7 +3,9 @@
     a positive time/generation limit is hit, the solver still returns normally with a solution that satisfies C01-C03, reporting
     work not yet placed as unassigned. It never runs more generations than the configured maximum."
    Model: Model/Evolution.v (+ the bookkeeping model Model/Homes.v of C02).  The quota is an ARBITRARY function nat -> bool of
-   the poll index; evaluation results, parent selection, ruin steps, foreign polls and the wall clock are arbitrary oracles.
+   the poll index; evaluation results, parent selection (also: no parent at all), the offspring list a user-supplied hyper-heuristic
+   hands over per generation (ANY list: empty, duplicates, copies of parents - `o_hyper`), a user-supplied termination criterion
+   on the statistics (`c_user_term`), ruin steps, foreign polls and the wall clock are arbitrary oracles.
    "valid" at this level = every job of the plan has exactly one home and `required` is drained (C02's invariant); feasibility (C01)
    and reproducibility (C03) of what is returned are checked on every real document by the verified checker valid_b.  *)
 From VRP Require Import Base.Tac Model.Homes Proofs.HomesP Model.Evolution Proofs.EvolutionP.
@@ -50,11 +52,15 @@ Proof. exact process_quota_first. Qed.
       quota oracle, under a positive generation limit COMBINED WITH ANY of the other criteria the builder accepts (max-time,
       min-cv sample / period, target proximity: oracles; none of them may already be true at the very first check, i.e. before the
       first initial solution): Ok(best), best has every job in exactly one home and nothing pending, and so has every individual of the population;
-      at most N + 1 generations; no generation starts once the quota has fired (k-th poll): at most k - 1 generations *)
+      at most N + 1 generations; no generation starts once the quota has fired (k-th poll): at most k - 1 generations.
+      W contains the offspring oracle o_hyper of a user-supplied hyper-heuristic: ANY list per generation (hyper_ok: each handed-over
+      solution is a complete solution of the plan when the population and the built-in offspring are; e.g. every selection among them,
+      C07_hyper_selection_is_ok) and the parent selection o_parents (any list, also empty); cfg may contain a user-supplied
+      termination on statistics.generation (positive limit) *)
 Theorem C07_evolve_returns_valid :
   forall (cfg : econfig) (W : oracles) (q : quota) (N k : nat),
-    oracles_ok W ->
-    c_max_gen cfg = Some N -> 1 <= N -> 1 <= c_init_ops cfg -> 1 <= c_init_size cfg ->
+    oracles_ok W -> hyper_ok (c_jobs cfg) W ->
+    c_max_gen cfg = Some N -> 1 <= N -> (forall l, c_user_term cfg = Some l -> 1 <= l) -> 1 <= c_init_ops cfg -> 1 <= c_init_size cfg ->
     (forall t, t < 3 -> o_time W t = false /\ forall i, o_other W i t = false) ->
     (c_max_time cfg = true -> o_init_quota W 0 = false) ->
     exists best st, evolve cfg W q = EOk best st
@@ -65,9 +71,17 @@ Theorem C07_evolve_returns_valid :
                     /\ (fires_by q k -> gens_run (s_tele st) <= pred k)
                     /\ length (t_evolution (s_tele st)) = gens_run (s_tele st).
 Proof.
-  intros cfg W q N k HW Hc HN Hops Hsize Hquiet Hiq.
-  exact (evolve_returns cfg W q HW N k Hc Hops Hsize (first_check_positive_limit cfg W N Hc HN Hquiet Hiq)).
+  intros cfg W q N k HW HH Hc HN Hu Hops Hsize Hquiet Hiq.
+  exact (evolve_returns cfg W q HW HH N k Hc Hops Hsize
+                        (first_check_positive_limit cfg W N Hc (eff_limit_pos cfg N HN Hu) Hquiet Hiq)).
 Qed.
+
+(* every user-supplied heuristic that only SELECTS among the parents and the offspring of the built-in search (drops some or all of
+   them, duplicates, reorders) satisfies hyper_ok *)
+Theorem C07_hyper_selection_is_ok :
+  forall (jobs : list Z) (W : oracles),
+    (forall g pop offs s, In s (o_hyper W g pop offs) -> In s pop \/ In s offs) -> hyper_ok jobs W.
+Proof. exact hyper_selection_ok. Qed.
 
 (* the harness' CountingQuota(k) is such a quota *)
 Theorem C07_counting_quota_fires : forall k, fires_by (counting_quota (Some k)) k.
@@ -89,38 +103,76 @@ Proof. exact evolve_zero_generations. Qed.
       of the generation just finished and MaxGeneration tests `generation >= limit`); metrics.generations reports N *)
 Theorem C07_generations_run_exact :
   forall (cfg : econfig) (W : oracles) (q : quota) (N : nat),
-    oracles_ok W ->
-    c_max_gen cfg = Some N -> 1 <= N -> 1 <= c_init_ops cfg -> 1 <= c_init_size cfg ->
+    oracles_ok W -> hyper_ok (c_jobs cfg) W ->
+    c_max_gen cfg = Some N -> 1 <= N -> c_user_term cfg = None -> 1 <= c_init_ops cfg -> 1 <= c_init_size cfg ->
     (c_max_time cfg = true -> o_init_quota W 0 = false) ->
     (forall n, q n = false) -> (forall t, o_time W t = false) -> (forall i t, o_other W i t = false) ->
     exists best st, evolve cfg W q = EOk best st /\ gens_run (s_tele st) = N + 1 /\ t_metric_gens (s_tele st) = N.
 Proof.
-  intros cfg W q N HW Hc HN Hops Hsize Ht Hq Htm Hot.
-  destruct (evolve_generations_exact cfg W q HW N Hc HN Hops Hsize) as (best & st & E & Hg & Hm); [|exact Hq|exact Htm|exact Hot|].
-  - apply (first_check_positive_limit cfg W N Hc HN); [|exact Ht]. intros t _. split; [apply Htm|intros i; apply Hot].
-  - exists best, st. split; [exact E|]. split; [lia|exact Hm].
+  intros cfg W q N HW HH Hc HN Hu Hops Hsize Ht Hq Htm Hot.
+  assert (HL : eff_limit cfg N = N) by (unfold eff_limit; rewrite Hu; reflexivity).
+  destruct (evolve_generations_exact cfg W q HW HH N Hc) as (best & st & E & Hg & Hm);
+    [rewrite HL; exact HN|exact Hops|exact Hsize| |exact Hq|exact Htm|exact Hot|].
+  - apply (first_check_positive_limit cfg W N Hc); [rewrite HL; exact HN| |exact Ht]. intros t _. split; [apply Htm|intros i; apply Hot].
+  - exists best, st. rewrite HL in Hg, Hm. split; [exact E|]. split; [lia|exact Hm].
 Qed.
+
+(* the same with a USER-SUPPLIED termination criterion that is reached only through the statistics (`statistics().generation >= L`,
+   wrapped around the builder's criteria): exactly min N L + 1 generations - the user-supplied criterion sees the same 0-based
+   counter, and EVERY iteration of the loop advances it, whatever list of offspring the (user-supplied) heuristic handed over and
+   whatever parents the (user-supplied) population selected *)
+Theorem C07_generations_run_exact_user_termination :
+  forall (cfg : econfig) (W : oracles) (q : quota) (N L : nat),
+    oracles_ok W -> hyper_ok (c_jobs cfg) W ->
+    c_max_gen cfg = Some N -> 1 <= N -> c_user_term cfg = Some L -> 1 <= L -> 1 <= c_init_ops cfg -> 1 <= c_init_size cfg ->
+    (c_max_time cfg = true -> o_init_quota W 0 = false) ->
+    (forall n, q n = false) -> (forall t, o_time W t = false) -> (forall i t, o_other W i t = false) ->
+    exists best st, evolve cfg W q = EOk best st /\ gens_run (s_tele st) = Nat.min N L + 1 /\ t_metric_gens (s_tele st) = Nat.min N L.
+Proof.
+  intros cfg W q N L HW HH Hc HN Hu HL1 Hops Hsize Ht Hq Htm Hot.
+  assert (HL : eff_limit cfg N = Nat.min N L) by (unfold eff_limit; rewrite Hu; reflexivity).
+  destruct (evolve_generations_exact cfg W q HW HH N Hc) as (best & st & E & Hg & Hm);
+    [rewrite HL; lia|exact Hops|exact Hsize| |exact Hq|exact Htm|exact Hot|].
+  - apply (first_check_positive_limit cfg W N Hc); [rewrite HL; lia| |exact Ht]. intros t _. split; [apply Htm|intros i; apply Hot].
+  - exists best, st. rewrite HL in Hg, Hm. split; [exact E|]. split; [lia|exact Hm].
+Qed.
+
+(* one iteration of Iterative::run, for EVERY offspring oracle and every parent selection: it is COUNTED - the number of generations
+   run grows by one and statistics.generation (what MaxGeneration and a user-supplied criterion read) becomes the index of the
+   iteration just finished - also when the heuristic handed over nothing, in which case the population stays as it was *)
+Theorem C07_every_iteration_is_counted :
+  forall (cfg : econfig) (W : oracles) (q : quota) (st : estate),
+    oracles_ok W ->
+    Forall (fun s => Inv (c_jobs cfg) s /\ h_required s = []) (s_pop st) ->
+    exists st', generation cfg W q st = Some st'
+                /\ gens_run (s_tele st') = S (gens_run (s_tele st))
+                /\ t_stat_gen (s_tele st') = gens_run (s_tele st)
+                /\ (exists offs, s_pop st' = s_pop st ++ o_hyper W (gens_run (s_tele st)) (s_pop st) offs)
+                /\ ((forall offs, o_hyper W (gens_run (s_tele st)) (s_pop st) offs = []) -> s_pop st' = s_pop st).
+Proof. intros cfg W q st HW. exact (generation_counted cfg W q HW st). Qed.
 
 Theorem C07_generations_bounded_refuted :
   exists (cfg : econfig) (W : oracles) (q : quota) (N : nat) (best : hsol) (st : estate),
     c_max_gen cfg = Some N /\ 1 <= N /\ evolve cfg W q = EOk best st /\ N < gens_run (s_tele st).
 Proof.
-  exists (mkC [0%Z; 1%Z] 1 (Some 1) false None false 4 4 0), (skip_oracles 0 []), (counting_quota None), 1.
+  exists (mkC [0%Z; 1%Z] 1 (Some 1) false None false None 4 4 0), (skip_oracles 0 []), (counting_quota None), 1.
   eexists _, _. split; [reflexivity|]. split; [lia|]. split; [vm_compute; reflexivity|]. vm_compute. lia.
 Qed.
 
-(* the strongest true bound: never more than N + 1 generations, for every quota / clock / operator oracle and for every
+(* the strongest true bound: never more than N + 1 generations, for every quota / clock / operator oracle, for EVERY offspring
+   oracle of a user-supplied hyper-heuristic (o_hyper: any list per generation, also the empty one) and every parent selection
+   (o_parents: also none), with or without a user-supplied termination on the statistics, and for every
    combination of max_generations = N with max-time, min-cv (sample or period, any size) and target proximity *)
 Theorem C07_generations_bounded_partial :
   forall (cfg : econfig) (W : oracles) (q : quota) (N : nat),
-    oracles_ok W ->
-    c_max_gen cfg = Some N -> 1 <= N -> 1 <= c_init_ops cfg -> 1 <= c_init_size cfg ->
+    oracles_ok W -> hyper_ok (c_jobs cfg) W ->
+    c_max_gen cfg = Some N -> 1 <= N -> (forall l, c_user_term cfg = Some l -> 1 <= l) -> 1 <= c_init_ops cfg -> 1 <= c_init_size cfg ->
     (forall t, t < 3 -> o_time W t = false /\ forall i, o_other W i t = false) ->
     (c_max_time cfg = true -> o_init_quota W 0 = false) ->
     exists best st, evolve cfg W q = EOk best st /\ gens_run (s_tele st) <= N + 1.
 Proof.
-  intros cfg W q N HW Hc HN Hops Hsize Hquiet Hiq.
-  destruct (C07_evolve_returns_valid cfg W q N 0 HW Hc HN Hops Hsize Hquiet Hiq) as (best & st & E & _ & _ & _ & Hg & _).
+  intros cfg W q N HW HH Hc HN Hu Hops Hsize Hquiet Hiq.
+  destruct (C07_evolve_returns_valid cfg W q N 0 HW HH Hc HN Hu Hops Hsize Hquiet Hiq) as (best & st & E & _ & _ & _ & Hg & _).
   exists best, st. split; [exact E|lia].
 Qed.
 
@@ -136,6 +188,11 @@ Theorem C07_composite_terminates_at_generation_limit :
   forall (ts : list term) (l gen : nat) (tm : nat -> bool) (ot : nat -> nat -> bool) (tp : nat),
     gen_limit ts = Some l -> l <= gen -> fst (is_termination ts gen tm ot tp) = true.
 Proof. intros ts l gen tm ot tp. exact (is_termination_gen_limit ts l gen tm ot tp). Qed.
+
+Theorem C07_composite_terminates_at_user_limit :
+  forall (ts : list term) (l gen : nat) (tm : nat -> bool) (ot : nat -> nat -> bool) (tp : nat),
+    In (TUser l) ts -> l <= gen -> fst (is_termination ts gen tm ot tp) = true.
+Proof. intros ts l gen tm ot tp. exact (is_termination_user_limit ts l gen tm ot tp). Qed.
 
 (* -- "inside any search step": the inner loop of the decomposition search runs the inner search at least once and at most
       repeat_count times, and exactly once when the quota is already reached *)
@@ -156,15 +213,28 @@ Proof. exact decompose_inner_reached. Qed.
 Theorem C07_nonvacuous :
   ev_ok (fun _ s => match h_required s with j :: _ => ESuccess 0 j | [] => EFailure None false false end)
   /\ oracles_ok (skip_oracles 3 [2; 5])
+  /\ hyper_ok [0%Z; 1%Z; 2%Z] (skip_oracles 3 [2; 5])
+  /\ hyper_ok [] (loop_oracles [2; 0; 1] [1; 0; 2] [0; 1; 3] [0; 2; 0])
   /\ Inv [0%Z; 1%Z; 2%Z] (init [0%Z; 1%Z; 2%Z])
   /\ run_process 3 (Some 2) = (1, 2, 2)
   /\ run_process 3 (Some 0) = (0, 3, 1)
   /\ run_process 3 None = (3, 0, 3)
   /\ run_evolve 2 8 [6; 18; 4] (Some 17) = (0, 2, 1, 2, 35)
   /\ run_evolve 2 8 [6; 18; 4] None = (0, 3, 2, 3, 40)
-  /\ run_evolve_cfg 2 true (Some (true, 40)) true 8 [6; 18; 4] None = (0, 3, 2, 3, 40).
+  /\ run_evolve_cfg 2 true (Some (true, 40)) true 8 [6; 18; 4] None = (0, 3, 2, 3, 40)
+  (* a scripted hyper-heuristic that hands over NOTHING in generations 0 and 2 (and everything three times in generation 1), one
+     parent selected: max_generations = 3 still runs 4 iterations, every one of them counted, 1 + 3 individuals *)
+  /\ run_loop (Some 3) None 1 1 0 0 [0; 0; 0; 0] [1; 1; 1; 1] [0; 3; 0; 1] [0; 0; 0; 0] None = (0, 4, 3, [0; 1; 2; 3], 5, 5)
+  (* a population that selects no parent at all and a heuristic that hands over nothing: still counted, the run ends *)
+  /\ run_loop (Some 2) None 1 1 0 0 [] [] [0; 0; 0] [] None = (0, 3, 2, [0; 1; 2], 4, 1)
+  (* a user-supplied termination `statistics().generation >= 1` under max_generations = 5: 2 iterations *)
+  /\ run_loop (Some 5) (Some 1) 1 1 0 0 [] [1; 1] [0; 2] [] None = (0, 2, 1, [0; 1], 3, 3).
 Proof.
-  split; [|split; [|split; [apply homes_init|repeat split; vm_compute; reflexivity]]].
+  split; [|split; [|split; [|split; [|split; [apply homes_init|repeat split; vm_compute; reflexivity]]]]].
   - intros i s. unfold eres_ok. cbv beta. destruct (h_required s) eqn:E; [exact I|left; reflexivity].
   - split; intros; intros i s; exact I.
+  - apply hyper_selection_ok. intros g pop offs s Hs. right. exact Hs.
+  - apply hyper_selection_ok. intros g pop offs s Hs. cbn [loop_oracles o_hyper] in Hs. apply in_app_or in Hs. destruct Hs as [Hs|Hs].
+    + right. apply in_flat_map in Hs. destruct Hs as (x & Hx & Hr). apply repeat_spec in Hr. subst s. exact Hx.
+    + left. destruct pop as [|h t]; [contradiction|]. apply repeat_spec in Hs. subst s. left. reflexivity.
 Qed.
